@@ -183,6 +183,58 @@ func c07(c *core.Ctx) {
 		r2 := ssax.Analyze(sh, ssax.ReachOpts{Pins: negate(shared)})
 		c.Check(r2.Reachable(gm.Instr), "C07.R2", "subscribeHandler|replay-for-non-shared", ipos(c, gm.Instr), "replay reachable for non-shared", "retained replay is unreachable even for non-shared subscriptions")
 	}
+	// Retain Handling: the MQTT table, decided for the six combinations by propagating the option value and the
+	// "already existed" flag through the gate (the values are only compared, never computed with)
+	{
+		rhLoads := ssax.FieldLoads(sh, true, func(v ssa.Value) bool {
+			f := ssax.FieldOf(v)
+			return f != nil && f.Name() == "RetainHandling" // of the packet's topic entry or of the subscription built from it
+		})
+		exLoads := ssax.FieldLoads(sh, true, func(v ssa.Value) bool {
+			f := ssax.FieldOf(v)
+			return f != nil && f.Name() == "AlreadyExisted"
+		})
+		// a gate that calls a function of the module which could not be seen through is not decided here
+		opaque := ""
+		for _, g := range ssax.Guards(gm.Instr) {
+			for v := range ssax.Backward(g.Cond) {
+				if call, ok := v.(*ssa.Call); ok {
+					if f := call.Call.StaticCallee(); f != nil && core.IsModuleFunc(f) && f.Signature.Results().Len() == 1 && f.Signature.Results().At(0).Type().String() == "bool" {
+						opaque = f.Name()
+					}
+				}
+			}
+		}
+		if opaque != "" {
+			c.Undecidedf("C07.R2", "subscribeHandler|retain-handling", ipos(c, gm.Instr), "the replay gate is computed by %s, which could not be inlined at its call site: the Retain Handling table is not decided", opaque)
+		} else if len(rhLoads) == 0 || len(exLoads) == 0 {
+			c.Violation("C07.R2", "subscribeHandler|retain-handling-read", ipos(c, gm.Instr), "the replay gate does not consult the Retain Handling option and whether the subscription already existed")
+		} else {
+			for _, rh := range []int64{0, 1, 2} {
+				for _, existed := range []bool{false, true} {
+					pins := negate(shared)
+					for _, l := range rhLoads {
+						pins[l] = ssax.AVInt(rh)
+					}
+					for _, l := range exLoads {
+						pins[l] = ssax.AVFalse
+						if existed {
+							pins[l] = ssax.AVTrue
+						}
+					}
+					want := rh == 0 || (rh == 1 && !existed)
+					r := ssax.Analyze(sh, ssax.ReachOpts{Pins: pins})
+					got := r.Reachable(gm.Instr)
+					key := fmt.Sprintf("subscribeHandler|retain-handling|rh%d|existed=%v", rh, existed)
+					if want {
+						c.Check(got, "C07.R2", key, ipos(c, gm.Instr), "retained messages are replayed", fmt.Sprintf("with Retain Handling %d and a subscription that %s, retained messages must be sent but the replay is unreachable", rh, map[bool]string{true: "already existed", false: "is new"}[existed]))
+					} else {
+						c.Check(!got, "C07.R2", key, ipos(c, gm.Instr), "no replay", fmt.Sprintf("with Retain Handling %d and a subscription that %s, retained messages must not be sent but the replay is reachable", rh, map[bool]string{true: "already existed", false: "is new"}[existed]))
+					}
+				}
+			}
+		}
+	}
 	// failed subscription: guarded by code < 0x80
 	okGuard := false
 	for _, g := range ssax.Guards(gm.Instr) {
